@@ -160,7 +160,9 @@ class Summarizer:
             raise AnchorError("predicate summary too deep", key)
         body = self.facts.body(key)
         if body.back_edges():
-            raise AnchorError("predicate body has a loop; cannot summarise", key)
+            f = self.summary_with_loop(key, body, depth)
+            self.cache[key] = f
+            return f
         rets = body.exits()
         paths = []
         for p in body.acyclic_paths(0, set(rets)):
@@ -192,6 +194,91 @@ class Summarizer:
         f = f_or(disj)
         self.cache[key] = f
         return f
+
+    def summary_with_loop(self, key, body, depth):
+        """A predicate written as an explicit scan: `for c in s.chars() { if A(c) { return v } } rest`.  The loop is the
+        quantifier any(s, A): if some char satisfies A the result is the constant v, otherwise whatever follows the loop."""
+        from . import scanact
+        if len(body.loops()) != 1:
+            raise AnchorError("predicate body has several loops; cannot summarise", key)
+        loop = scanact.char_loop(self.facts, body)
+        st, lpaths, is_elem, exit_none = scanact.loop_transitions(self.facts, self, body, loop)
+        if st:
+            raise AnchorError("predicate loop carries state; cannot summarise as a quantifier", key)
+        h = loop["header"]
+        blocks = loop["blocks"]
+        ret_conds = {True: [], False: []}
+        for lp in lpaths:
+            if lp["exit"] == "continue":
+                if lp["effects"]:
+                    raise AnchorError("predicate loop has effects", key)
+                continue
+            if lp["exit"] not in ("return", "break"):
+                raise AnchorError("predicate loop leaves through %s" % lp["exit"], key)
+            # follow the path to the function's return to read the constant it yields
+            tail = list(lp["blocks"])
+            cur = tail[-1]
+            guard = 0
+            while body.term(cur)["t"] != "return" and guard < 12:
+                ss = body.succs(cur)
+                if len(ss) != 1:
+                    raise AnchorError("predicate loop exit is not straight-line", key)
+                cur = ss[0]
+                tail.append(cur)
+                guard += 1
+            v = strip(self.value_along(body, 0, tuple(tail)))
+            if v[0] != "const" or not isinstance(v[1], bool):
+                raise AnchorError("predicate loop returns a non-constant from inside the loop", key)
+            if any(c[0] == "p" and c[1] == "opaque" for c in lp["conds"]):
+                raise AnchorError("predicate loop branches on something other than the element", key)
+            ret_conds[v[1]].append(f_and(list(lp["conds"])))
+        if ret_conds[True] and ret_conds[False]:
+            raise AnchorError("predicate loop returns both constants from inside (first-match order matters)", key)
+        v1 = True if ret_conds[True] else False
+        a = f_or(ret_conds[v1]) if ret_conds[v1] else ("F",)
+        quant = ("any", loop["subject"], a)
+        # before the loop: paths from entry to the header (conditions), and returns that never reach the loop
+        rets = set(body.exits())
+        disj = []
+        pre = []
+        for p in body.acyclic_paths(0, rets | {h}):
+            conj = self._path_conj(body, p, depth)
+            if p[-1] == h:
+                pre.append(f_and(conj))
+            elif body.term(p[-1])["t"] == "return":
+                conj.append(self.term_formula(body, self.value_along(body, 0, p), depth))
+                disj.append(f_and(conj))
+        pre_f = f_or(pre) if pre else ("F",)
+        # after the loop (iterator exhausted)
+        post = []
+        if exit_none is None:
+            raise AnchorError("predicate loop has no exhaustion exit", key)
+        for p in body.acyclic_paths(exit_none, rets):
+            if body.term(p[-1])["t"] != "return" or any(b in blocks for b in p):
+                continue
+            conj = self._path_conj(body, p, depth)
+            conj.append(self.term_formula(body, self.value_along(body, 0, p), depth))
+            post.append(f_and(conj))
+        post_f = f_or(post) if post else ("F",)
+        if v1:
+            disj.append(f_and([pre_f, quant]))
+        disj.append(f_and([pre_f, f_not(quant), post_f]))
+        return f_or(disj)
+
+    def _path_conj(self, body, p, depth):
+        conj = []
+        for a, b in zip(p, p[1:]):
+            eg = body.edge_guards(a, b)
+            if eg is None:
+                continue
+            cond, outcome = eg
+            pos = outcome_bool(outcome)
+            if pos is None:
+                conj.append(("p", "atom", (atom_of(cond, outcome),)))
+                continue
+            f = self.term_formula(body, strip(cond), depth)
+            conj.append(f if pos else f_not(f))
+        return conj
 
     def value_along(self, body, local, path):
         last = None
